@@ -272,6 +272,33 @@ fn main() {
             }
         }
         "selftest" => std::process::exit(selftest::run()),
+        "c20dbg" => {
+            {
+                let hwm = || std::fs::read_to_string("/proc/self/status").unwrap_or_default().lines().find(|l| l.starts_with("VmHWM")).unwrap_or("").to_string();
+                let mut r = rng::Rng::new(rng::run_seed(seed, 95, 5));
+                let which = r.below(8);
+                let cfg = c20::big_cfg(&mut r, which);
+                println!("before build {}", hwm());
+                let t0 = Instant::now();
+                let st = vol::format_store(&cfg.vol);
+                println!("after format {:.1}s {} ok={}", t0.elapsed().as_secs_f64(), hwm(), st.is_ok());
+                let mut st = st.unwrap();
+                let mut rr = rng::Rng::new(1);
+                let t0 = Instant::now();
+                let _ = vol::dress(&mut st, &cfg.vol, &mut rr);
+                println!("after dress {:.1}s {}", t0.elapsed().as_secs_f64(), hwm());
+                let t0 = Instant::now();
+                let p = refdec::parse(&st);
+                println!("after parse {:.1}s {} ok={}", t0.elapsed().as_secs_f64(), hwm(), p.is_ok());
+            }
+            for i in 5..6u64 {
+                let t0 = Instant::now();
+                let o = c20::run(rng::run_seed(seed, 95, i));
+                println!("{} {:.1}s evals={} {}", i, t0.elapsed().as_secs_f64(), o.evaluations, o.sample.map(|s| s["config"].to_string()).unwrap_or_default());
+                let st = std::fs::read_to_string("/proc/self/status").unwrap_or_default();
+                println!("   {}", st.lines().find(|l| l.starts_with("VmHWM")).unwrap_or(""));
+            }
+        }
         "replay-batch" => {
             let path = args.get(2).cloned().unwrap_or_else(|| usage());
             c19::child_replay_batch(&path);
